@@ -75,14 +75,20 @@ def tagUnits (m : String) : String := Generated.unitsTagPrefix ++ m ++ Generated
 def tagProcess (m : String) : String := Generated.processTagPrefix ++ m ++ Generated.processTagSuffix
 def tagFunction (m : String) : String := Generated.functionTagPrefix ++ m ++ Generated.functionTagSuffix
 
-/-- pint's default `str(magnitude * unit)`: `format(magnitude) + " " + format(unit)`.
-(Valid for unit strings that do not start with `1 /`; pint prints `5 / second` for those.) -/
-def showQ (m u : String) : String := m ++ " " ++ u
+/-- the literal `1 / ` with which pint prints a unit that has no numerator -/
+def recipPrefix : List Char := ['1', ' ', '/', ' ']
 
 def stripPrefix? : List Char → List Char → Option (List Char)
   | [], cs => some cs
   | _ :: _, [] => Option.none
   | p :: ps, c :: cs => if p = c then stripPrefix? ps cs else Option.none
+
+/-- pint's default `str(magnitude * unit)`: `format(magnitude) + " " + format(unit)`; for a
+unit without numerator (`1 / second`) pint folds the magnitude in: `5 / second`. -/
+def showQ (m u : String) : String :=
+  match stripPrefix? recipPrefix u.toList with
+  | some rest => m ++ " / " ++ String.ofList rest
+  | Option.none => m ++ " " ++ u
 
 /-- the literal prefix of the regex `!units\[(.*)\]` -/
 def unitsPrefix : List Char := ['!', 'u', 'n', 'i', 't', 's', '[']
@@ -380,7 +386,11 @@ def tokenParse (s : String) : Except Err PVal :=
     if isNumTok head then
       if rest.isEmpty then
         (if isIntTok head then .ok (.int (intOfTok head)) else .ok (.float (String.ofList head)))
-      else .ok (.quantity (tokenNorm (String.ofList head) (String.ofList rest)) (String.ofList rest))
+      else
+        let unit := match rest with
+          | '/' :: ' ' :: _ => recipPrefix.take 2 ++ rest     -- `5 / second` is `5 * (1 / second)`
+          | _ => rest
+        .ok (.quantity (tokenNorm (String.ofList head) (String.ofList unit)) (String.ofList unit))
     else .ok (.quantity (tokenNorm "1" (String.ofList cs)) (String.ofList cs))
 
 def Pint.token : Pint := { parse := tokenParse, norm := tokenNorm }
